@@ -12,7 +12,7 @@ def run(ctx):
     quick = ctx.tier == "quick"
     ctx.build_harness()
     ctx.tlc_must_pass("MC_Renderer", "MC_Renderer_q" if quick else "MC_Renderer_t", timeout=3000)
-    r = rendcheck.run_rend_traces(ctx, ["geometry", "corpus", "reuse", "arcs"], 500 if quick else 10000)
+    r = rendcheck.run_rend_traces(ctx, ["geometry", "corpus", "reuse", "arcs"], 500 if quick else 30000)
     for d in r["diags"]:
         if rendcheck.classify(d) == "raster":
             ctx.violation(rendcheck.vkey(d), "rasteriser calls differ from the mapped path: %s" % d.get("what"), d)
